@@ -211,13 +211,59 @@ def gen_events(seed: int, n: int) -> list:
             route = rnd.randrange(3)
             evs.append(_res({"op": "i_diff", "a": T3I(a), "b": T3I(b), "route": route},
                             [lambda: a - b, lambda: a.minus(b), lambda: Instant.subtract(a, b)][route], T3D))
-        elif c < 0.93:
+        elif c < 0.92:
             a, b = mk_inst(), mk_inst()
             if rnd.random() < 0.3:
                 b = Instant._ctor(days=a._days_since_epoch, nano_of_day=a._nanosecond_of_day)
             ev = {"op": "i_cmp", "a": T3I(a), "b": T3I(b)}
             cmp_fields(ev, a, b, T3I, Instant)
             evs.append(ev)
+        elif c < 0.94:
+            # offsets applied to instants and to local instants, plain and "safe" routes, biased to the ends of time
+            from pyoda_time._local_instant import _LocalInstant
+
+            o = Offset.from_seconds(rnd.choice([0, 1, -1, 64800, -64800, 3600, -3600, rnd.randint(-64800, 64800)]))
+            cc = rnd.random()
+            ns = (imin + rnd.choice([0, 1, rnd.randrange(2 * NPD), NPD - 1, NPD]) if cc < 0.3 else
+                  imax - rnd.choice([0, 1, rnd.randrange(2 * NPD), NPD - 1, NPD]) if cc < 0.6 else
+                  rnd.choice([-2, -1, 0, 1, 2]) * NPD + rnd.choice([0, 1, -1, 64800 * 10**9, -64800 * 10**9, o.nanoseconds, -o.nanoseconds,
+                                                                   NPD - o.nanoseconds, rnd.randrange(NPD)]) if cc < 0.8 else
+                  rnd.randint(imin, imax))
+            ns = min(max(ns, imin), imax)
+
+            def T3L(li):
+                if not li._is_valid:
+                    return [-2000000000, 0, 0] if li._days_since_epoch < 0 else [2000000000, 0, 0]
+                return [li._days_since_epoch, li._nanosecond_of_day // 10**9, li._nanosecond_of_day % 10**9]
+
+            def T3S(inst):
+                if not inst._is_valid:
+                    return [-2000000000, 0, 0] if inst._days_since_epoch < 0 else [2000000000, 0, 0]
+                return T3I(inst)
+
+            if rnd.random() < 0.5:
+                a = Instant._ctor(days=ns // NPD, nano_of_day=ns % NPD)
+                ev = {"op": "i_local", "a": T3I(a), "o": o.seconds}
+                try:
+                    li = a._plus(o)
+                    ev["res"] = T3L(li)
+                    ev["back"] = T3I(li._minus(o))
+                except Exception as e:  # noqa: BLE001
+                    ev["exc"] = _exc(e)
+                try:
+                    ev["safe"] = T3L(a._safe_plus(o))
+                except Exception as e:  # noqa: BLE001
+                    ev["safe_exc"] = _exc(e)
+                evs.append(ev)
+            else:
+                li = _LocalInstant._ctor(days=ns // NPD, nano_of_day=ns % NPD)
+                ev = {"op": "l_minus", "a": T3L(li), "o": o.seconds}
+                _res(ev, lambda: li._minus(o), T3I)
+                try:
+                    ev["safe"] = T3S(li._safe_minus(o))
+                except Exception as e:  # noqa: BLE001
+                    ev["safe_exc"] = _exc(e)
+                evs.append(ev)
         elif c < 0.95:
             y = rnd.choice([-9998, 9999, 1, 0, 1970, 2000, 1900, 2100, rnd.randint(-9998, 9999), 10000, -9999])
             mo = rnd.choice([1, 2, 12, rnd.randint(1, 12), 0, 13])
